@@ -529,8 +529,8 @@ def C15(tier):
                                 ("asan", (0, 2, 6, 9), [4, 5]), ("msan", (0, 6), sz(tier, [6, 7], [6, 7, 8, 9]))):
         for w in worlds:
             specs.append((cfg, w, c.spec("calls-%s-w%d" % (cfg, w), cfg, "drv_history", "c15", count, shards=shards, params=[w, 0], timeout=2400)))
-    if tier == T:
-        specs.append(("vg", 0, c.spec("calls-memcheck-w0", "dbg", "drv_history", "c15", max(50, count // 50), shards=[10, 11], params=[0, 0], timeout=3500,
+    if True:  # memcheck as an independent detector with different blind spots (small sample in the quick tier)
+        specs.append(("vg", 0, c.spec("calls-memcheck-w0", "dbg", "drv_history", "c15", sz(tier, 400, max(50, count // 8)), shards=[10, 11, 12, 13], params=[0, 0], timeout=3500,
                                       wrapper=["valgrind", "-q", "--error-exitcode=97", "--undef-value-errors=yes", "--track-origins=no"])))
     c.go()
     ref = specs[0][2].run
@@ -583,7 +583,7 @@ def C17(tier):
             handles.append(c.spec("threads-tsanN-%d" % T_, "tsanN", "drv_threads", "c17", 1, nshards=4, shards=[0, 1], params=[T_, rounds], env=tsan_env, timeout=3000))
         handles.append(c.spec("threads-native-8", "native", "drv_threads", "c17", 1, nshards=4, shards=[0, 1], params=[8, rounds * 2], timeout=3000))
     if tier == T:
-        handles.append(c.spec("threads-helgrind-4", "dbg", "drv_threads", "c17", 1, nshards=4, shards=[0], params=[4, 2], timeout=3400,
+        handles.append(c.spec("threads-helgrind-4", "dbg", "drv_threads", "c17", 1, nshards=4, shards=[0, 1], params=[4, 8], timeout=3400,
                               wrapper=["valgrind", "-q", "--tool=helgrind", "--history-level=approx"]))
     c.go()
     nreports = 0
